@@ -196,6 +196,9 @@ def one_case(ctx, r, desc):
                             numeric = dict(b.attrs).get("keep-sorted-format") == "numeric"
                             b.lines[k] = w if b.lines[k] != w else (str(float(w) + 1) if numeric else w + "x")
                         b.how = how
+                        if r.random() < 0.25 and how in ("insert", "replace"):
+                            # the same change also rewords the end-tag line (words after the tag, inside its comment): still a content change
+                            b.end_suffix = " v%d" % r.randint(2, 9)
                 elif b.cls == TAGONLY:
                     bump_rev(b)
                 elif b.cls == ENDONLY:
